@@ -122,6 +122,12 @@ fn render_case<F: Backend + RenderHints>(
             let vars = [p[0], p[1], z as f64, 0.0, 0.0, free];
             let (v, mag) = scene::eval64(&s.prog, &vars);
             total += 1;
+            if v.is_nan() {
+                // outside the shape's domain (sqrt of a negative number ...): the
+                // property's "value at the sample position" is undefined there
+                undecidable += 1;
+                continue;
+            }
             let tol = 2e-5 * (1.0 + mag);
             let px = img[(j, i)];
             if pixel_perfect {
